@@ -719,12 +719,7 @@ int main(int argc, char** argv)
     return vf::worker_main(argc, argv, "C13", run,
                            []
                            {
-                               (void)tuner_t::all().ids();
-                               (void)splitter_t::all().ids();
-                               (void)solver_t::all().ids();
-                               (void)lsearch0_t::all().ids();
-                               (void)lsearchk_t::all().ids();
-                               (void)function_t::all().ids();
+                               vf::warm_factories();
                                std::any a(int64_t{1});
                                (void)std::any_cast<int64_t>(&a);
                            });
